@@ -49,6 +49,7 @@ VARIABLES
   role,       \* role of the receiving endpoint
   phase,      \* "NoKeys" | "KeysPending" | "Connected" | "Closed" | "Failed"
   delivered,  \* ghost: number of byte strings handed to the upper layer
+  wasConn,    \* the endpoint has been Connected (it can have sent ApplicationData of its own)
   last,       \* the last step: [kind |-> "init" | "progress" | "recv", rec |-> record, pre |-> phase before]
   hist,       \* ghost: <<[rec, to]>> - the records received so far and the phase after each
   \* ---- tx
@@ -61,11 +62,11 @@ VARIABLES
   spc,        \* [Senders -> [pc, e, s, left, off]]
   wire        \* set of records put on the wire; (ct, by, i) identifies a record
 
-rxvars == <<role, phase, delivered, last, hist>>
+rxvars == <<role, phase, wasConn, delivered, last, hist>>
 txvars == <<plan, early, withClose, hs, ctxSeq, wEpoch, wSeq, connected, spc, wire>>
 vars   == <<rxvars, txvars>>
 \* hist, last and the delivery counter do not influence any future step
-view   == <<role, phase, txvars>>
+view   == <<role, phase, wasConn, txvars>>
 
 Dev(d) == d \in Deviations
 
@@ -85,7 +86,7 @@ KeysExist(ph) == ph \in {"KeysPending", "Connected", "Closed"}
 HaveKeys(r, ph)   == ph \in {"Connected", "Closed"} \/ (ph = "KeysPending" /\ r = "client")
 GenuineApp(r, ph) == HaveKeys(r, ph)              \* the peer can send() a genuine ApplicationData record
 GenuineFin(r, ph) == KeysExist(ph)                \* the peer's Finished record is on the wire
-OwnApp(r, ph)     == ph \in {"Connected", "Closed"}
+OwnApp(r, ph)     == ph = "Connected" \/ (ph = "Closed" /\ wasConn)   \* (closed while still handshaking: nothing sent)
 OwnFin(r, ph)     == (r = "client" /\ KeysExist(ph)) \/ (r = "server" /\ ph \in {"Connected", "Closed"})
 HasBase(r, ph, c) == CASE c = "AppData"   -> GenuineApp(r, ph)
                        [] c = "Handshake" -> GenuineFin(r, ph)
@@ -203,6 +204,7 @@ RxInit ==
   /\ role \in Roles
   /\ phase \in InitPhases
   /\ delivered = 0
+  /\ wasConn = (phase \in {"Connected", "Closed"})
   /\ last = [kind |-> "init", rec |-> Rec("", "", "", -1, ""), pre |-> "NoKeys"]
   /\ hist = << Step(Rec("", "start", "", -1, ""), phase) >>
 
@@ -212,7 +214,7 @@ Progress ==
   /\ phase' = "KeysPending"
   /\ last' = [kind |-> "progress", rec |-> Rec("", "", "", -1, ""), pre |-> phase]
   /\ hist' = Append(hist, Step(Rec("", "derive-keys", "", -1, ""), phase'))
-  /\ UNCHANGED <<role, delivered>>
+  /\ UNCHANGED <<role, delivered, wasConn>>
 
 Recv(rec) ==                       \* rec \in Records(role, phase), see RxNext
   /\ phase \in Phases
@@ -221,6 +223,7 @@ Recv(rec) ==                       \* rec \in Records(role, phase), see RxNext
      \/ \E x \in DeviantEffects(role, phase, rec) : delivered' = delivered + x[1] /\ phase' = x[2]
   /\ last' = [kind |-> "recv", rec |-> rec, pre |-> phase]
   /\ hist' = Append(hist, Step(rec, phase'))
+  /\ wasConn' = (wasConn \/ phase' = "Connected")
   /\ UNCHANGED role
 
 RxNext == Progress \/ \E rec \in Records(role, phase) : Recv(rec)
@@ -341,7 +344,7 @@ TxDone == hs \in {"done", "closed"} /\ (withClose => hs = "closed") /\ \A p \in 
 Init == IF Part = "rx"
         THEN RxInit /\ plan = [p \in Senders |-> 0] /\ early = FALSE /\ withClose = FALSE /\ hs = "fin" /\ ctxSeq = 0
              /\ wEpoch = 0 /\ wSeq = 0 /\ connected = FALSE /\ spc = [p \in Senders |-> Idle] /\ wire = {}
-        ELSE TxInit /\ role = "client" /\ phase = "NoKeys" /\ delivered = 0 /\ hist = <<>>
+        ELSE TxInit /\ role = "client" /\ phase = "NoKeys" /\ delivered = 0 /\ wasConn = FALSE /\ hist = <<>>
              /\ last = [kind |-> "init", rec |-> Rec("", "", "", -1, ""), pre |-> "NoKeys"]
 
 Next == IF Part = "rx" THEN RxNext /\ UNCHANGED txvars ELSE TxNext /\ UNCHANGED rxvars
@@ -349,7 +352,7 @@ Next == IF Part = "rx" THEN RxNext /\ UNCHANGED txvars ELSE TxNext /\ UNCHANGED 
 Spec == Init /\ [][Next]_vars
 
 TypeOK ==
-  /\ role \in {"client", "server"} /\ phase \in Phases \cup {"Failed"} /\ delivered \in Nat
+  /\ role \in {"client", "server"} /\ phase \in Phases \cup {"Failed"} /\ delivered \in Nat /\ wasConn \in BOOLEAN
   /\ wEpoch \in 0..1 /\ wSeq \in Nat /\ ctxSeq \in Nat /\ connected \in BOOLEAN
   /\ \A r \in wire : r.epoch \in 0..1 /\ r.seq \in Nat /\ r.len \in 0..(Limit + 1)
 =============================================================================
